@@ -8,6 +8,8 @@ import Props.C11
 import Props.Family
 import Gen.Guards.Det
 import Gen.Guards.FillersOK
+import Gen.Guards.LabelsOK
+import Gen.Guards.TextStableC
 import Gen.Guards.WrapOK
 namespace PM.Family.C11
 open PM
@@ -92,5 +94,63 @@ theorem insertInline_total (S : Schema) (hS : S ∈ familySchemas) (doc : Node) 
     ∃ r, replaceStep S doc f t sl = .ok r :=
   PM.C11.insertInline_total S (family_det _ hS) (family_fillersOK _ hS) (family_wrapOK _ hS) doc f t sl hsl hv
     hattrs htop hft ht
+
+/-- `PM.C11.fit_emits_wf` with its schema guards discharged for the bundled schema family -/
+theorem fit_emits_wf (S : Schema) (hS : S ∈ familySchemas) (doc : Node) (f t : Nat) (sl : Slice)
+    (hv : C01.Valid S doc) (hattrs : S.nodeAttrsOK doc = true) (hwf : sl.wf = true) (hft : f ≤ t)
+    (hrun : unplacedWfRun S doc f t sl = true) (st : Step) (h : replaceStep S doc f t sl = .ok (some st)) :
+    StepWF st = true ∧
+    (∀ F T G1 G2 sl' ins b, st = .replaceAround F T G1 G2 sl' ins b → aroundShape F T G1 G2 sl' ins = true) :=
+  PM.C11.fit_emits_wf S (family_det _ hS) (family_fillersOK _ hS) (family_wrapOK _ hS) (family_labelsOK _ hS)
+    doc f t sl hv hattrs hwf hft hrun st h
+
+/-- `PM.C11.coherent_invariant` with its schema guards discharged for the bundled schema family -/
+theorem coherent_invariant (S : Schema) (hS : S ∈ domFamilySchemas) :
+    (∀ (doc : Node) (f : Nat) (rf : RPos) (sl : Slice) (st0 : FitState), doc.resolve f = some rf →
+    fitInit S rf sl = .ok st0 →
+    Coh S rf.depth rf.depth st0.frontier 0 st0.frontier st0.placed ∧
+    st0.coherentB S rf.depth st0.frontier = true) ∧
+    (∀ (D g : Nat) (base : List FItem) (st st' : FitState), InStep st → g ≤ D →
+    Coh S D g base 0 st.frontier st.placed → st.unplaced.wf = true → (st.unplaced.size == 0) = false →
+    fitStep S st = .ok st' →
+    ∃ g', g' ≤ g ∧ Coh S D g' base 0 st'.frontier st'.placed ∧ st'.coherentB S D base = true) ∧
+    (∀ (D g : Nat) (base : List FItem) (fuel : Nat) (st st' : FitState), InStep st → g ≤ D →
+    Coh S D g base 0 st.frontier st.placed → fitLoopAll S (fun s => s.unplaced.wf) fuel st = some true →
+    fitLoop S fuel st = .ok st' →
+    InStep st' ∧ ∃ g', g' ≤ g ∧ Coh S D g' base 0 st'.frontier st'.placed ∧ st'.coherentB S D base = true) :=
+  PM.C11.coherent_invariant S (family_det _ (domFamily_sub _ hS)) (family_fillersOK _ (domFamily_sub _ hS))
+    (family_wrapOK _ (domFamily_sub _ hS)) (family_labelsOK _ (domFamily_sub _ hS))
+    (family_textStableC _ (domFamily_sub _ hS))
+
+/-- `PM.C11.inStep_invariant` with its schema guards discharged for the bundled schema family -/
+theorem inStep_invariant (S : Schema) (hS : S ∈ familySchemas) (st st' : FitState) (hin : InStep st)
+    (hwf : st.unplaced.wf = true) (hsz : (st.unplaced.size == 0) = false) (h : fitStep S st = .ok st') :
+    InStep st' ∧ st'.inStepB = true :=
+  PM.C11.inStep_invariant S (family_det _ hS) (family_fillersOK _ hS) (family_wrapOK _ hS)
+    (family_labelsOK _ hS) st st' hin hwf hsz h
+
+/-- `PM.C11.delete_emits_wf` with its schema guards discharged for the bundled schema family -/
+theorem delete_emits_wf (S : Schema) (hS : S ∈ familySchemas) (doc : Node) (f t : Nat) (hv : C01.Valid S doc)
+    (hattrs : S.nodeAttrsOK doc = true) (hft : f ≤ t) (st : Step)
+    (h : replaceStep S doc f t Slice.empty = .ok (some st)) :
+    StepWF st = true ∧
+    (∀ F T G1 G2 sl' ins b, st = .replaceAround F T G1 G2 sl' ins b → aroundShape F T G1 G2 sl' ins = true) :=
+  PM.C11.delete_emits_wf S (family_det _ hS) (family_fillersOK _ hS) doc f t hv hattrs hft st h
+
+/-- `PM.C11.deleteRange_emits_wf` with its schema guards discharged for the bundled schema family -/
+theorem deleteRange_emits_wf (S : Schema) (hS : S ∈ familySchemas) (doc : Node) (f t : Nat)
+    (hv : C01.Valid S doc) (hattrs : S.nodeAttrsOK doc = true) (hft : f ≤ t) (st : Step)
+    (h : deleteRangeStep S doc f t = .ok (some st)) :
+    StepWF st = true :=
+  PM.C11.deleteRange_emits_wf S (family_det _ hS) (family_fillersOK _ hS) doc f t hv hattrs hft st h
+
+/-- `PM.C11.insertInline_emits_wf` with its schema guards discharged for the bundled schema family -/
+theorem insertInline_emits_wf (S : Schema) (hS : S ∈ familySchemas) (doc : Node) (f t : Nat) (sl : Slice)
+    (hsl : sl.inlineLeaves S = true) (hv : C01.Valid S doc) (hattrs : S.nodeAttrsOK doc = true) (hft : f ≤ t)
+    (st : Step) (h : replaceStep S doc f t sl = .ok (some st)) :
+    StepWF st = true ∧
+    (∀ F T G1 G2 sl' ins b, st = .replaceAround F T G1 G2 sl' ins b → aroundShape F T G1 G2 sl' ins = true) :=
+  PM.C11.insertInline_emits_wf S (family_det _ hS) (family_fillersOK _ hS) (family_wrapOK _ hS) doc f t sl hsl
+    hv hattrs hft st h
 
 end PM.Family.C11
